@@ -8,7 +8,11 @@ import traceback
 def _wrap(args):
     fn, a = args
     try:
-        return fn(*a)
+        r = fn(*a)
+        if isinstance(r, dict):
+            r.pop("_shrunk", None)
+            r.pop("_d", None)
+        return r
     except Exception:
         return {"obligations": [("harness shard ran without internal error", False, traceback.format_exc()[-2000:])]}
 
